@@ -307,6 +307,8 @@ def num(v):
                 return math.nan
             if "oo" in s:
                 return -math.inf if "-" in s else math.inf
+            if z3.is_fp_value(v) and v.isZero():
+                return -0.0 if v.isNegative() else 0.0        # the sign of a floating-point zero is part of the model (bit patterns, 1/x, atan2)
             return float(eval(str(z3.simplify(z3.fpToReal(v)).as_fraction()))) if z3.is_fp_value(v) else None
         except Exception:
             return None
